@@ -17,7 +17,10 @@ def gen_program(rng, arch, nstmt, vocab, incbin):
         if r < 0.16:
             nlab += 1
             name = "lab%d" % nlab
-            lines.append(name + (":" if rng.random() < 0.7 else ""))
+            if rng.random() < 0.25:
+                lines.append("@defn %s, @here" % name)          # the address observed without emitting anything
+            else:
+                lines.append(name + (":" if rng.random() < 0.7 else ""))
             labels[name] = here
         elif r < 0.22:
             here = rng.choice([0, 1, 0x100, 0x7ff, 0x8000, 0xc000, rng.randrange(0, 0xe000)])
@@ -108,6 +111,11 @@ def run(ck):
     progs, expect = [], []
     # corpus: the historical defect first
     progs.append(("z80", '@segment "ADDR"\n@org 1\n@align 4\nendlab:\n')); expect.append((b"", {"endlab": 4}))
+    # the address one past the last byte of memory is still an address: labels and @here agree there
+    for arch in asmk.ARCHES:
+        progs.append((arch, "@org $ffff\n@db 7\n@defn top1, @here\n@defn top2, @here - 1\nendlab:\n")); expect.append((b"\x07", {"top1": 0x10000, "top2": 0xFFFF, "endlab": 0x10000}))
+        progs.append((arch, '@segment "ADDR"\n@org $fffe\n@dw\n@defn top1, @here\nendlab:\n')); expect.append((b"", {"top1": 0x10000, "endlab": 0x10000}))
+        progs.append((arch, "@org $ff00\n@ds 256, 1\n@defn top1, $10000 - @here\nendlab:\n")); expect.append((b"\x01" * 256, {"top1": 0, "endlab": 0x10000}))
     for arch in asmk.ARCHES:
         vocab = [(f, b) for f, b in asmk.census(arch)
                  if not f.split()[0] in ("jr", "djnz", "bcc", "bcs", "beq", "bmi", "bne", "bpl", "bvc", "bvs")]
@@ -157,4 +165,27 @@ def run(ck):
             n += 1
             progs2.append((arch, t)); expect2.append((out, labs))
     batch(progs2, expect2, big)
+    # the real process writing to standard output and to -o: images with line-break bytes followed by long runs
+    import subprocess, tempfile, shutil
+    az = build_az65_bin()
+    d = tempfile.mkdtemp(prefix="az65_c06_")
+    try:
+        for n, arch in enumerate(asmk.ARCHES):
+            # (the last line break is followed by more than a buffer's worth of bytes)
+            img = bytes([1, 10, 2]) + b"A" * (1100 + 300 * n) + b"\n" + b"B" * 2048 + bytes([3])
+            src = "@db 1, 10, 2\n@ds %d, $41\n@db 10\n@ds 2048, $42\n@db 3\n" % (1100 + 300 * n)
+            open(os.path.join(d, "m.asm"), "w").write(src)
+            p1 = subprocess.run([az, arch, "m.asm"], cwd=d, stdout=subprocess.PIPE, stderr=subprocess.PIPE, timeout=60)
+            p2 = subprocess.run([az, arch, "m.asm", "-o", "o.bin"], cwd=d, stdout=subprocess.PIPE, stderr=subprocess.PIPE, timeout=60)
+            got2 = open(os.path.join(d, "o.bin"), "rb").read() if os.path.exists(os.path.join(d, "o.bin")) else None
+            ck.evaluations += 2
+            ck.count("cli:%s" % arch)
+            for how, got in (("standard output", p1.stdout), ("the -o file", got2)):
+                if got != img:
+                    ck.violation("%s: the real process writes %s bytes to %s, the image has %d bytes: %r" % (arch, None if got is None else len(got), how, len(img), src),
+                                 {"mode": "cli", "argv": ["az65", arch, "m.asm"] + (["-o", "o.bin"] if how != "standard output" else []),
+                                  "files": {"m.asm": src}, "expected": "%d bytes" % len(img)})
+                    break
+    finally:
+        shutil.rmtree(d, ignore_errors=True)
     return ck
